@@ -22,7 +22,7 @@ def directions(rng, shape, full_upto=4, nrand=2):
     return out
 
 
-def check_grads(prog, skip, shadow, grads, bw_idx, names, rng, tau=1e-8, M=0.0, full_upto=4, nrand=2, fd=None):
+def check_grads(prog, skip, shadow, grads, bw_idx, names, rng, tau=1e-8, M=0.0, full_upto=4, nrand=2, fd=None, stale_ok=()):
     """grads: name -> ndarray or None (MyGrad's .grad right after the backward at bw_idx).
     Returns (violations, counters)."""
     fd = fd or FD(prog, skip)
@@ -65,6 +65,11 @@ def check_grads(prog, skip, shadow, grads, bw_idx, names, rng, tau=1e-8, M=0.0, 
                 cnt["fd_kink"] += 1
             elif verdict == "illcond":
                 cnt["fd_illcond"] += 1
+            elif t in stale_ok and abs(info.get("ref", 1.0)) <= 1e-10 * S and g is not None:
+                # the read-out does not depend on this tensor at all: it may simply not be part of the back-propagated graph, in which case
+                # it legitimately keeps the gradient an earlier backward() left on it
+                cnt["fd_stale_unjudged"] = cnt.get("fd_stale_unjudged", 0) + 1
+                break
             else:
                 info.update({"tensor": t, "owner": o, "epoch_stmt": e, "grad_is_none": g is None, "S": S,
                              "direction": np.asarray(V).ravel().tolist()[:16]})
